@@ -1407,13 +1407,15 @@ class RawAlgorithmsMixIn:
             raise NotImplementedError('should implement that')
 
         xbar_data = out
-        tmp1 = numpy.zeros(xbar_data.shape)
-        tmp2 = numpy.zeros(xbar_data.shape)
+        # (work arrays of the common type: complex intermediates keep their imaginary part)
+        dtype = numpy.result_type(ybar_data.dtype, y_data.dtype, float)
+        tmp1 = numpy.zeros(xbar_data.shape, dtype=dtype)
+        tmp2 = numpy.zeros(xbar_data.shape, dtype=dtype)
 
         tmp1 = cls._dot(ybar_data, cls._transpose(y_data), out = tmp1)
         tmp2 = cls._dot(cls._transpose(y_data), tmp1, out = tmp2)
 
-        xbar_data -= tmp2
+        numpy.subtract(xbar_data, tmp2, out=xbar_data, casting='unsafe')
         return out
 
 
@@ -1426,12 +1428,13 @@ class RawAlgorithmsMixIn:
         Abar_data = out[0]
         xbar_data = out[1]
 
-        Tbar = numpy.zeros(xbar_data.shape)
+        # (the common type: A^-T ybar is complex for complex A also when x, hence xbar, is real)
+        Tbar = numpy.zeros(xbar_data.shape, dtype=numpy.result_type(ybar_data.dtype, A_data.dtype, y_data.dtype, float))
 
         cls._solve( A_data.transpose((0,1,3,2)), ybar_data, out = Tbar)
         Tbar *= -1.
         cls._iouter(Tbar, y_data, Abar_data)
-        xbar_data -= Tbar
+        numpy.subtract(xbar_data, Tbar, out=xbar_data, casting='unsafe')
 
         return out
 
